@@ -19,12 +19,17 @@ type Clause struct {
 	Text string
 	Expr ast.Expr
 	Pos  string
+	By   string // axioms: the lemma that proves it
 }
 
 type LoopContract struct {
 	Invariants []*Clause
 	Decreases  *Clause
 	Unroll     int
+	// Modifies: slices whose backing arrays (as they are on loop entry) the loop may write,
+	// besides arrays it allocates itself. HasModifies distinguishes "modifies nothing".
+	Modifies    []*Clause
+	HasModifies bool
 }
 
 type GhostParam struct {
@@ -48,6 +53,7 @@ type Contract struct {
 	Opaque   bool   // spec function used as an uninterpreted function unless the unit reveals it
 	OpaqueAt bool   // (b []byte, p int, ...) -> UF(bytes of b, off(b)+p, ...)
 	Extent   string // opaque-at function giving the number of bytes the value depends on (frame axiom)
+	Axioms   []*Clause
 }
 
 // parseContracts reads //@ blocks from the zz_verif_contracts*.go files of a package.
@@ -168,6 +174,19 @@ func (p *Program) contractLine(pk *packages.Package, cur **Contract, line, pos s
 		c.Trusted = true
 	case "proved":
 		c.Trusted = false
+	case "axiom":
+		// axiom <expr>  [by <lemma>]: a fact about pure (uninterpreted) functions, proved by the named lemma
+		by := ""
+		if i := strings.LastIndex(rest, " by "); i >= 0 {
+			by = strings.TrimSpace(rest[i+4:])
+			rest = rest[:i]
+		}
+		cl, err := mkClause(rest)
+		if err != nil {
+			return err
+		}
+		cl.By = by
+		c.Axioms = append(c.Axioms, cl)
 	case "pure":
 		c.Pure = true
 	case "opaque":
@@ -204,6 +223,18 @@ func (p *Program) contractLine(pk *packages.Package, cur **Contract, line, pos s
 				return err
 			}
 			lc.Decreases = cl
+		case "modifies":
+			lc.HasModifies = true
+			for _, part := range splitTop(r3) {
+				if part == "nothing" {
+					continue
+				}
+				cl, err := mkClause(part)
+				if err != nil {
+					return err
+				}
+				lc.Modifies = append(lc.Modifies, cl)
+			}
 		case "unroll":
 			k, err := strconv.Atoi(strings.TrimSpace(r3))
 			if err != nil {
@@ -714,6 +745,9 @@ func (e *evalEnv) evalCall(n *ast.CallExpr) Value {
 					}
 					args[i].T = pt
 				}
+				if ct := x.Prog.Contracts[QualName(fn)]; ct != nil && ct.Pure && len(ct.Ensures) == 0 && !x.Opt.NoContract[QualName(fn)] && !x.Opt.InlineAll && allScalar(args) {
+					return x.pureCall(ct, args, fn.Signature.Results())
+				}
 				return x.callSpec(e.st, fn, args)
 			}
 		}
@@ -783,6 +817,8 @@ func (e *evalEnv) quant(kind string, n *ast.CallExpr) *Term {
 		if len(n.Args) == 5 {
 			pv := inner.eval(n.Args[4])
 			pats = append(pats, pv.L[0])
+		} else {
+			pats = autoPatterns(body, v)
 		}
 		if kind == "forall" {
 			return c.Forall([]*Term{v}, c.Implies(rng, body), pats...)
